@@ -8,10 +8,13 @@ res = {}
 rp = os.path.join(ROOT, "seeded", "RESULTS.json")
 if os.path.exists(rp):
     res = json.load(open(rp))
-for sid in sorted(os.listdir(os.path.join(ROOT, "seeded"))):
+import threading
+from concurrent.futures import ThreadPoolExecutor
+JOBS = int(os.environ.get("SEED_JOBS", "4"))
+wlock = threading.Lock()
+
+def one(sid):
     d = os.path.join(ROOT, "seeded", sid)
-    if not os.path.isdir(d) or (only and sid not in only):
-        continue
     meta = json.load(open(os.path.join(d, "meta.json")))
     props = [meta["property"]] + meta.get("also_check", [])
     t = time.time()
@@ -20,11 +23,18 @@ for sid in sorted(os.listdir(os.path.join(ROOT, "seeded"))):
         last = json.load(open(os.path.join(d, "last_run.json")))
     except Exception:
         last = {"error": r.stdout[-300:] + r.stderr[-300:]}
-    res[sid] = {p: dict(exit=v.get("exit"), with_input=bool(v.get("violations")) and not any("no-failing-input-found" in x for x in v.get("violations", [])),
-                        line=(v.get("violations") or [""])[0]) for p, v in last.items()} if "error" not in last else last
-    res[sid]["_wall_s"] = round(time.time() - t)
-    print(sid, res[sid], flush=True)
-    json.dump(res, open(rp, "w"), indent=1)
+    out = {p: dict(exit=v.get("exit"), with_input=bool(v.get("violations")) and not any("no-failing-input-found" in x for x in v.get("violations", [])),
+                   line=(v.get("violations") or [""])[0]) for p, v in last.items()} if "error" not in last else last
+    out["_wall_s"] = round(time.time() - t)
+    with wlock:
+        res[sid] = out
+        print(sid, out, flush=True)
+        json.dump(res, open(rp, "w"), indent=1)
+
+sids = [sid for sid in sorted(os.listdir(os.path.join(ROOT, "seeded")))
+        if os.path.isdir(os.path.join(ROOT, "seeded", sid)) and (not only or sid in only)]
+with ThreadPoolExecutor(JOBS) as ex:
+    list(ex.map(one, sids))
 lines = ["| seeded change | property | check exit | failing input produced |", "|---|---|---|---|"]
 for sid in sorted(res):
     for p, v in res[sid].items():
